@@ -246,6 +246,8 @@ pub fn eval_doc(doc: &Doc, via_lsp: bool) -> (Vec<Failure>, &'static str, Option
     }
     let class;
     let mut rule = None;
+    let n_before = fails.len();
+    let mut expectation = json!({"no_diagnostic": true});
     if sem_errs.is_empty() {
         class = "well-typed";
         if !errs.is_empty() {
@@ -275,6 +277,7 @@ pub fn eval_doc(doc: &Doc, via_lsp: bool) -> (Vec<Failure>, &'static str, Option
                 | Rule::UndefinedVariable
         ) && want.end == want.first + 1;
         let (s, e) = if on_identifier { (doc.r.tok_ranges[want.first].0, doc.r.tok_ranges[want.first].1) } else { byte_span(doc, want.first, want.end) };
+        expectation = json!({"only_rule": format!("{:?}", want.rule), "inside_bytes": [s, e]});
         let same: Vec<_> = errs.iter().filter(|x| rule_of(&x.1) == Some(want.rule)).collect();
         let other: Vec<_> = errs.iter().filter(|x| rule_of(&x.1) != Some(want.rule)).collect();
         if same.is_empty() {
@@ -298,6 +301,9 @@ pub fn eval_doc(doc: &Doc, via_lsp: bool) -> (Vec<Failure>, &'static str, Option
                 detail: format!("only {:?} is violated, got also {:?}", want.rule, other),
             });
         }
+    }
+    for f in fails.iter_mut().skip(n_before) {
+        f.case["expected"] = expectation.clone();
     }
     // the published diagnostics are the same errors, converted by the LSP position rules
     if via_lsp {
@@ -480,10 +486,27 @@ pub fn replay(case: &Value) -> Vec<Failure> {
         Err(p) => vec![Failure { key: "diag:panic".into(), case: case.clone(), detail: p }],
         Ok(errs) => {
             println!("diagnostics of the stored text: {:?}", errs);
-            errs.iter()
+            let mut out: Vec<Failure> = errs
+                .iter()
                 .filter(|e| e.0.start > e.0.end || e.0.end > text.len())
                 .map(|e| Failure { key: "diag:range-outside-document".into(), case: case.clone(), detail: format!("{:?}", e) })
-                .collect()
+                .collect();
+            // the stored expectation of the reference checker
+            let exp = &case["expected"];
+            if exp["no_diagnostic"] == json!(true) && !errs.is_empty() {
+                out.push(Failure { key: "diag:spurious-on-valid-program".into(), case: case.clone(), detail: format!("{:?}", errs) });
+            }
+            if let Some(rule) = exp["only_rule"].as_str() {
+                let (s, e) = (exp["inside_bytes"][0].as_u64().unwrap_or(0) as usize, exp["inside_bytes"][1].as_u64().unwrap_or(0) as usize);
+                let name = |x: &spl_frontend::error::SplError| rule_of(&x.1).map(|r| format!("{:?}", r)).unwrap_or_else(|| "syntax".into());
+                if !errs.iter().any(|x| name(x) == rule && x.0.start >= s && x.0.end <= e) {
+                    out.push(Failure { key: format!("diag:{}:missing-or-misplaced", rule), case: case.clone(), detail: format!("expected inside bytes {}..{}, got {:?}", s, e, errs) });
+                }
+                if let Some(o) = errs.iter().find(|x| name(x) != rule) {
+                    out.push(Failure { key: format!("diag:{}:extra", rule), case: case.clone(), detail: format!("{:?}", o) });
+                }
+            }
+            out
         }
     }
 }
